@@ -8,6 +8,7 @@ import (
 	"strings"
 	"sync"
 	"testing"
+	"time"
 
 	gogit "github.com/go-git/go-git/v5"
 	"github.com/go-git/go-git/v5/plumbing"
@@ -41,6 +42,10 @@ type c08Case struct {
 	// "empty-child" / "op-child": a correctly signed root at edit time 1, then the tested commit as its
 	// child, with an empty operation pack (what a merge commit carries) or with one comment.
 	Shape string `json:"shape,omitempty"`
+	// Alter (variant altered): what is changed under the kept signature: "" / "tree", "parent" (child shapes: the
+	// commit is re-created on top of another root), "date" (the author date)
+	Alter string `json:"alter,omitempty"`
+	Prop  string `json:"prop,omitempty"` // the property the case is reported under (C08 by default)
 }
 
 var c08Variants = []string{"right", "removed", "future", "stranger", "unsigned", "altered"}
@@ -70,6 +75,7 @@ func genC08(t *rapid.T) c08Case {
 	c.T = rapid.IntRange(1, total+3).Draw(t, "t")
 	c.Variant = rapid.SampledFrom(c08Variants).Draw(t, "variant")
 	c.Shape = rapid.SampledFrom([]string{"root", "root", "empty-child", "op-child"}).Draw(t, "shape")
+	c.Alter = rapid.SampledFrom([]string{"tree", "parent", "date"}).Draw(t, "alter")
 	return c
 }
 
@@ -98,7 +104,11 @@ func runC08(tb report.TB, rep *report.Reporter, c c08Case) {
 		tb.Fatalf("harness: %v", err)
 	}
 	defer repo.Close()
-	fail := func(sig, detail string) bool { return rep.Fail(tb, "C08/"+sig, detail, c) }
+	prop := c.Prop
+	if prop == "" {
+		prop = "C08"
+	}
+	fail := func(sig, detail string) bool { return rep.Fail(tb, prop+"/"+sig, detail, c) }
 
 	// ---- the author's version history through the real API, with the bugs-edit clock moved in between
 	type refVersion struct {
@@ -256,7 +266,7 @@ func runC08(tb report.TB, rep *report.Reporter, c c08Case) {
 	if err != nil {
 		tb.Fatalf("harness: %v", err)
 	}
-	var commit repository.Hash
+	var commit, altRoot repository.Hash
 	var parents []repository.Hash
 	if child {
 		// the root: edit time 1, signed by a key in force at that time (unsigned when there is none): always acceptable
@@ -276,6 +286,14 @@ func runC08(tb report.TB, rep *report.Reporter, c c08Case) {
 			tb.Fatalf("harness: store root: %v", err)
 		}
 		parents = []repository.Hash{root}
+		// another root with the same operations (same bug id), for the "parent" alteration
+		if ath, err := repo.StoreTree(append(append([]repository.TreeEntry(nil), rootEntries...), repository.TreeEntry{ObjectType: repository.Blob, Hash: empty, Name: "zz-other-root"})); err == nil {
+			if at1 := inForceAt(1); len(at1) > 0 {
+				altRoot, _ = repo.StoreSignedCommit(ath, pool[at1[0]].PGPEntity())
+			} else {
+				altRoot, _ = repo.StoreCommit(ath)
+			}
+		}
 		childBlob := ondisk.EmptyOpsBlob(string(author.Id()))
 		if c.Shape == "op-child" {
 			n2 := base64.StdEncoding.EncodeToString(NonceFor(c.Seed, 2))
@@ -299,7 +317,9 @@ func runC08(tb report.TB, rep *report.Reporter, c c08Case) {
 	if err != nil {
 		tb.Fatalf("harness: store commit: %v", err)
 	}
+	alteration := ""
 	if variant == "altered" {
+		alteration = "tree"
 		// keep the signature, change the content: another tree with the same meaning for the reader
 		th2, err := repo.StoreTree(append(entries, repository.TreeEntry{ObjectType: repository.Blob, Hash: empty, Name: "zz-smuggled"}))
 		if err != nil {
@@ -313,7 +333,17 @@ func runC08(tb report.TB, rep *report.Reporter, c c08Case) {
 		if err != nil {
 			tb.Fatalf("harness: %v", err)
 		}
-		co.TreeHash = plumbing.NewHash(string(th2))
+		switch {
+		case c.Alter == "parent" && child && altRoot != "":
+			co.ParentHashes = []plumbing.Hash{plumbing.NewHash(string(altRoot))}
+			alteration = "parent"
+		case c.Alter == "date":
+			co.Author.When = co.Author.When.Add(-36 * time.Hour)
+			co.Committer.When = co.Committer.When.Add(-36 * time.Hour)
+			alteration = "date"
+		default:
+			co.TreeHash = plumbing.NewHash(string(th2))
+		}
 		obj := gr.Storer.NewEncodedObject()
 		obj.SetType(plumbing.CommitObject)
 		if err := co.Encode(obj); err != nil {
@@ -335,9 +365,9 @@ func runC08(tb report.TB, rep *report.Reporter, c c08Case) {
 	for _, v := range ref {
 		pattern = append(pattern, fmt.Sprintf("%d", len(v.keys)))
 	}
-	rep.Case(fmt.Sprintf("%s|%s|%s|clk%v|%s", strings.Join(pattern, ""), rel, variant, c.ClockAtFirst, shapeName(c.Shape)),
+	rep.Case(fmt.Sprintf("%s|%s|%s|clk%v|%s", strings.Join(pattern, ""), rel, variant+alteration, c.ClockAtFirst, shapeName(c.Shape)),
 		len(inForce) > 0 && variant != "right",
-		[]string{"variant:" + variant, rel, fmt.Sprintf("versions:%d", len(ref)), fmt.Sprintf("expect-accept:%v", wantAccept), "shape:" + shapeName(c.Shape)}, c)
+		[]string{"variant:" + variant, rel, fmt.Sprintf("versions:%d", len(ref)), fmt.Sprintf("expect-accept:%v", wantAccept), "shape:" + shapeName(c.Shape), "altered:" + alteration}, c)
 
 	detail := func(extra string) string {
 		return fmt.Sprintf("versions (bugs-edit time / keys): %+v\ncommit at edit time %d, variant %s (signer key %d), keys in force %v, expected accept=%v\n%s", ref, T, variant, signer, inForce, wantAccept, extra)
@@ -407,4 +437,18 @@ func mustClocks(repo repository.ClockedRepo) map[string]uint64 {
 
 func TestC08Signatures(t *testing.T) {
 	Drive(t, "C08", genC08, runC08)
+}
+
+// TestC07SignedHistories: C07's clause "hostile data is reported invalid, the local refs stay as they were" for the
+// one kind of hostile data the structural catalogue cannot express: commits attributed to an author who has a
+// signing key in force, served unsigned, signed by a stranger or altered under a kept signature, as the first
+// commit, as a child with operations or as a child with an empty pack. Same machinery as C08, reported as C07.
+func TestC07SignedHistories(t *testing.T) {
+	gen := func(t *rapid.T) c08Case {
+		c := genC08(t)
+		c.Prop = "C07"
+		c.Variant = rapid.SampledFrom([]string{"unsigned", "stranger", "altered", "removed", "future"}).Draw(t, "hostileVariant")
+		return c
+	}
+	Drive(t, "C07", gen, runC08)
 }
